@@ -938,7 +938,7 @@ Proof. repeat split; vm_compute; reflexivity. Qed.
 
 (** * Generated subtitle tracks *)
 
-(** As the code is, a generated subtitle segment that no pattern schedules is answered 404 instead
+(** Before fccb54a a generated subtitle segment that no pattern schedules was answered 404 instead
     of normally (testpic_2s, timesubsstpp_en, statuscode_[{cycle:8,rsq:1,code:503}], segment 40 is the
     first of its cycle: not scheduled). *)
 Lemma timesubs_refuted :
